@@ -4,7 +4,7 @@ and comparing the projected observables."""
 import os
 import subprocess
 
-from core import (BUILD, Sandbox, Snap, mask_log, parse_cat_tree, parse_log, parse_ls_files,
+from core import (BUILD, Sandbox, Snap, mask_log, render_log, parse_cat_tree, parse_log, parse_ls_files,
                   parse_reflog, parse_sign, parse_status)
 
 MODELDRV = os.path.join(BUILD, "modeldrv")
@@ -16,6 +16,18 @@ def hx(b):
 
 def unhx(s):
     return b"" if s == "-" else bytes.fromhex(s)
+
+
+def unhx_id(h):
+    """LOGE carries hex(hex id) (the model's own hex rendering, hex-encoded by the driver)"""
+    return bytes.fromhex(h.decode())
+
+
+def _first_diff(a, b):
+    i = 0
+    while i < min(len(a), len(b)) and a[i] == b[i]:
+        i += 1
+    return a[max(0, i - 40):i + 60]
 
 
 def B(x):
@@ -299,11 +311,17 @@ def parse_model_output(text):
         if tag == "STEP":
             cur = MWorld()
             cur.outcome, cur.out, cur.trace = t[2], [], []
+            cur.loge = []
             cur.refs, cur.index, cur.idxraw, cur.blogs, cur.files, cur.dirs = {}, None, None, {}, {}, set()
             cur.lcfg, cur.gcfg = None, None
             cur.cfg = {"LCFG": None, "GCFG": None}
         elif tag == "OUT":
             cur.out.append(unhx(t[1]))
+        elif tag == "LOGE":
+            if t[1] == "none" or t[2] == "noauthor":
+                cur.loge.append(None)
+            else:
+                cur.loge.append((t[1].encode() if t[1] != "-" else b"", unhx(t[2]), unhx(t[3]), int(t[4]), int(t[5]), unhx(t[6])))
         elif tag == "TR":
             cur.trace.append(" ".join(t[1:]))
         elif tag == "W":
@@ -413,6 +431,12 @@ def compare_step(r, m):
                 got, exp = _m(got), _m(exp)
             if got != exp:
                 d.append("output: goit=%r model=%r" % (got[:6], exp[:6]))
+            elif st.name == "log" and None not in m.loge:
+                # the remaining fields of every entry as the model's reader reads them back, rendered the way
+                # Commit.String prints them
+                full = render_log([(unhx_id(e[0]),) + e[1:] for e in m.loge])
+                if full is not None and full != r.res.out:
+                    d.append("log entries: goit=%r model=%r" % (_first_diff(r.res.out, full), _first_diff(full, r.res.out)))
     if s.inited != m.inited:
         d.append("inited: goit=%s model=%s" % (s.inited, m.inited))
         return d
